@@ -301,7 +301,11 @@ func (r Rule) IsSame(nr Rule) bool {
 	if (r.RecordingRule != nil) != (nr.RecordingRule != nil) {
 		return false
 	}
-	if r.Error != nr.Error {
+	// Error values of two parser runs are never the same value, compare what they say.
+	if r.Error.Line != nr.Error.Line || r.Error.Details != nr.Error.Details || (r.Error.Err == nil) != (nr.Error.Err == nil) {
+		return false
+	}
+	if r.Error.Err != nil && r.Error.Err.Error() != nr.Error.Err.Error() {
 		return false
 	}
 	if r.Lines.First != nr.Lines.First {
